@@ -89,6 +89,8 @@ def _o(x):
 
 
 def _nb(nb):
+    if isinstance(nb, tuple) and len(nb) == 2 and nb[0] == 'one':
+        return [1, nb[1]]          # a single node passed as a scalar: the model sees the one-element bunch
     return [0] if nb is None else [1] + list(nb)
 
 
@@ -677,6 +679,13 @@ class Impl:
                 return _exc_name(x)
         if k == 'deg':
             _, r, kind, t, nb = op
+            if isinstance(nb, tuple) and len(nb) == 2 and nb[0] == 'one':
+                # scalar nbunch: a number for a node of the graph
+                x = I.to(nb[1])
+                res = (D.degree(G, x, t) if (F and kind == 'degree') else getattr(G, kind)(x, t))
+                if isinstance(res, dict):
+                    return sorted((I.back(n), dd) for n, dd in res.items())
+                return [(nb[1], res)]
             nbx = None if nb is None else [I.to(x) for x in nb]
             if F and kind == 'degree':
                 res = D.degree(G, nbx, t)
